@@ -28,6 +28,7 @@ type c03Case struct {
 	PermNo       int    `json:"perm_no"`
 	Rounds       int    `json:"rounds"`
 	Hostile      bool   `json:"hostile"`
+	Withhold     bool   `json:"withhold_a_round_from_one_node"`
 	Seed         uint64 `json:"seed"`
 }
 
@@ -48,7 +49,7 @@ func c03Gen(idx int) c03Case {
 	}
 	nt := nts[idx%len(nts)]
 	c := c03Case{Index: idx, Scheme: schemes[(idx/len(nts))%len(schemes)].Name, N: nt[0], Thr: nt[1], Seed: seed,
-		Backend: []string{"bolt-trimmed", "memdb", "bolt-untrimmed"}[rng.Intn(3)], Rounds: rng.Range(3, 5), Hostile: rng.Chance(70), PermNo: rng.Intn(720)}
+		Backend: []string{"bolt-trimmed", "memdb", "bolt-untrimmed"}[rng.Intn(3)], Rounds: rng.Range(3, 5), Hostile: rng.Chance(70), PermNo: rng.Intn(720), Withhold: rng.Chance(35)}
 	ks := []int{nt[1] - 1, nt[1], nt[1] + 1}
 	names := []string{"t-1", "t", "t+1"}
 	w := (idx / (len(nts) * len(schemes))) % 3
@@ -168,10 +169,33 @@ func c03Run(run *vfRun, c c03Case) {
 		time.Sleep(3 * time.Millisecond)
 		nt.Settle()
 	}
+	var held []*vfbQueued // partials of one round kept back from one node: it falls a round behind the others
+	heldFor, heldRound := -1, uint64(0)
+	if c.Withhold && len(c.Contributors) > c.Thr {
+		heldFor = c.Contributors[rng.Intn(len(c.Contributors))]
+		heldRound = uint64(rng.Range(1, c.Rounds-1))
+	}
 	for r := 0; r < c.Rounds+1; r++ {
 		nt.Step(cfg.Period)
 		for loop := 0; loop < 6; loop++ {
 			q := nt.TakeQueue()
+			if heldFor >= 0 {
+				var rest []*vfbQueued
+				for _, m := range q {
+					if m.to == heldFor && m.p.GetRound() == heldRound {
+						held = append(held, m)
+						run.Count("partials_withheld", 1)
+					} else {
+						rest = append(rest, m)
+					}
+				}
+				q = rest
+				// release them once the others have moved on: the late node now sees round r+1 before round r
+				if len(held) > 0 && uint64(r) > heldRound+1 {
+					q = append(q, held...)
+					held, heldFor = nil, -1
+				}
+			}
 			if len(q) == 0 {
 				break
 			}
@@ -256,7 +280,7 @@ func c03Hostile(nt *vfbNet, adv *vfbAdversary, rng *vfRng, victim *vfbNode, m *v
 	}
 	var pkt *proto.PartialBeaconPacket
 	kind := ""
-	switch rng.Intn(7) {
+	switch rng.Intn(8) {
 	case 0:
 		kind = "bitflip"
 		pkt = nt.packet(p.Round, p.PreviousSignature, flipBit(p.PartialSig, rng))
@@ -279,6 +303,17 @@ func c03Hostile(nt *vfbNet, adv *vfbAdversary, rng *vfRng, victim *vfbNode, m *v
 			s := append([]byte{byte(silent >> 8), byte(silent)}, p.PartialSig[2:]...)
 			pkt = nt.packet(p.Round, p.PreviousSignature, s)
 		}
+	case 7:
+		// a correct evaluation of the sharing polynomial at an index no member holds (the harness owns the
+		// polynomial; a real adversary below the threshold cannot compute it, but if it existed it must not count)
+		kind = "valid-evaluation-at-non-member-index"
+		sh := nt.pri.Shares(n + 3)[n+rng.Intn(3)]
+		prev := p.PreviousSignature
+		if !nt.chained() {
+			prev = nil
+		}
+		sg, _ := nt.cfg.Scheme.ThresholdScheme.Sign(sh, nt.digest(p.Round, prev))
+		pkt = nt.packet(p.Round, p.PreviousSignature, sg)
 	case 5:
 		kind = "non-member-index"
 		if len(p.PartialSig) > 2 {
